@@ -306,7 +306,8 @@ def ref_match(node, s, i, uni, budget=None):
     """Backtracking matcher with the same exploration order and step counting as Regex.bt.
     Returns (steps, end index or None).  `budget` = max steps (raises TimeoutError)."""
     import sys
-    sys.setrecursionlimit(max(sys.getrecursionlimit(), 100000))
+    old_limit = sys.getrecursionlimit()
+    sys.setrecursionlimit(max(old_limit, 100000))   # restored below: the code under test must see the default
     n = len(s)
     steps = [0]
 
@@ -347,7 +348,10 @@ def ref_match(node, s, i, uni, budget=None):
             return None
         raise Untranslatable(f"unknown node {r!r}")
 
-    e = bt(node, i, lambda j: j)
+    try:
+        e = bt(node, i, lambda j: j)
+    finally:
+        sys.setrecursionlimit(old_limit)
     return steps[0], e
 
 
